@@ -13,9 +13,11 @@ func checkC03(cx *Ctx, r *Report) {
 	w, fx := cx.W, cx.Fx
 	cx.checkNoTemplateBypass(r)
 	cx.checkCallbackLookupKey(r)
+	cx.checkNoCustomMarshallers(r)
 	// storage is asked with the request's context (which carries the issuer / tenant in effect): keys, providers and
 	// users are those of this request
 	cx.checkStorageContext(r)
+	cx.checkStorageIsTheApplications(r)
 	// request data must not be shared between requests through recycled buffers (R-POOL, see C15)
 	cx.checkPoolEscape(r)
 	r.Clauses = []string{
